@@ -627,7 +627,7 @@ class NumpyModel:
         if is_cart(ga) and gb is None:
             return ('CART', 'XFORM', ga[2])
         if gb is not None and gb[0] == 'LATMAT' and ga is None:
-            return ('LATMAT', gb[1])
+            return None  # unknown @ lattice matrix: nothing can be said about the product
         return None
 
     def unaryop(self, interp, st, op, v, node):
